@@ -623,8 +623,8 @@ func c08Mutate(r *rand.Rand, ci any) []any {
 
 func init() {
 	register(&Prop{
-		ID: "C08",
-		Rule: "probe table: every exported ValueBinder method with signature (string,*T)/(string,*[]T) (enumerated by reflect), every BindWithDelimiter destination and every field of a catalogue struct (17 scalar kinds, pointers, slices, slices of pointers, pointers to slices; sources query/Bind/form/multipart/header/param) x 48 decimal boundaries (±(2^w+{-1,0,1}), w=7,8,15,16,31,32,63,64) and ~170 look-alikes (signs, leading zeros, whitespace, 0x/_/e forms, Unicode digits, 40-digit numbers, float32/64 rounding witnesses, duration limits, empty); plus random chains of 2-7 binder ops (calls, FailFast, BindError, BindErrors) and random struct requests of 1-6 fields; non-trivial = a converted text within ±1 of a width boundary or a look-alike of a number, or a call made while the binder already holds an error; distinct = distinct model op lines",
+		ID:             "C08",
+		Rule:           "probe table: every exported ValueBinder method with signature (string,*T)/(string,*[]T) (enumerated by reflect), every BindWithDelimiter destination and every field of a catalogue struct (17 scalar kinds, pointers, slices, slices of pointers, pointers to slices; sources query/Bind/form/multipart/header/param) x 48 decimal boundaries (±(2^w+{-1,0,1}), w=7,8,15,16,31,32,63,64) and ~170 look-alikes (signs, leading zeros, whitespace, 0x/_/e forms, Unicode digits, 40-digit numbers, float32/64 rounding witnesses, duration limits, empty); plus random chains of 2-7 binder ops (calls, FailFast, BindError, BindErrors) and random struct requests of 1-6 fields; non-trivial = a converted text within ±1 of a width boundary or a look-alike of a number, or a call made while the binder already holds an error; distinct = distinct model op lines",
 		New:            func() any { return &c08Case{} },
 		Gen:            c08Gen,
 		Run:            c08Run,
